@@ -842,6 +842,11 @@ pub fn generate(tier: &str, rng: &mut Rng) -> Vec<String> {
         out.push(format!("acc {} {}", entries_tok(&big_entries), hex(b"K-BIN")));
         out.push(format!("acc {} {}", entries_tok(&big_entries), hex(b"x-a")));
         out.push(format!("ops 3 app A {} {} ins B {} {} app A {} {}", hex(b"x-a"), hex(&ascii_big), hex(b"k-bin"), hex(&pat), hex(b"x-a"), hex(b"2")));
+        let (padded, unpadded) = (base64::engine::general_purpose::STANDARD.encode(&pat[..n - 1]).into_bytes(), base64::engine::general_purpose::STANDARD_NO_PAD.encode(&pat[..n - 1]).into_bytes());
+        out.push(format!("bineq {} {}", hex(&padded), hex(&unpadded)));
+        out.push(format!("veq B {} {} {}", hex(&padded), hex(&unpadded), hex(&pat[..n - 1])));
+        out.push(format!("veq A {} {} {}", hex(&ascii_big), hex(&ascii_big), hex(&ascii_big)));
+        out.push(format!("hmap 4 app {} {} app {} {} get {} ext 1 {} {}", hex(b"a"), hex(&ascii_big), hex(b"a"), hex(&unpadded), hex(b"A"), hex(b"k-bin"), hex(&padded)));
         // end to end: a large ASCII value and a large binary value in the request, the response and the status,
         // and (64 KiB) a large status message and details
         let big_md: Typed = vec![(false, b"x-big".to_vec(), ascii_big.clone()), (true, b"big-bin".to_vec(), pat.clone()), (false, b"x-big".to_vec(), b"after".to_vec())];
